@@ -34,6 +34,7 @@ func (b *Body) run(reach0 *T, st0 State) {
 					cond = Or(cond, b.edge[[2]int{src.Index, k}])
 				}
 			}
+			b.presBlk = src
 			b.loopInvariants(lp, "inv-pres", cond, st, func(phi *ssa.Phi) *Val {
 				for i, p := range blk.Preds {
 					if p == src {
@@ -454,7 +455,13 @@ func (b *Body) loopInvariants(lp *Loop, kind string, guard *T, st State, phiVal 
 			if len(parts) > 1 {
 				pn = fmt.Sprintf("%s.%d", name, k+1)
 			}
-			ft.oblige(&Obligation{Name: pn, Kind: kind, Tags: ft.clauseTags(c), Guard: guard, Goal: cv, Src: c.Src, Pos: ft.pos(lp.Header.Instrs[0].Pos())})
+			ob := &Obligation{Name: pn, Kind: kind, Tags: ft.clauseTags(c), Guard: guard, Goal: cv, Src: c.Src, Pos: ft.pos(lp.Header.Instrs[0].Pos()), body: b, loopRole: lp}
+			if kind == "inv-init" {
+				ob.blk = lp.Header.Idom()
+			} else {
+				ob.blk = b.presBlk
+			}
+			ft.oblige(ob)
 		}
 	}
 }
@@ -471,7 +478,11 @@ func (b *Body) assumeInvariants(lp *Loop, reach *T, st State) {
 		if err != nil {
 			continue // reported by loopInvariants
 		}
-		ft.fact(Imp(reach, cv))
+		f := Imp(reach, cv)
+		if !isTrue(f) {
+			ft.invFacts = append(ft.invFacts, invFact{idx: len(ft.facts), lp: lp, body: b})
+			ft.facts = append(ft.facts, f)
+		}
 	}
 }
 
